@@ -1,6 +1,7 @@
-\* quick: both sockets x every ordered list of 1..3 distinct plugs
+\* quick: every socket x every ordered list of 1..3 distinct plugs
 CONSTANTS
   MaxPlugs = 3
+  DEV_FirstOnTrack = FALSE
 SPECIFICATION Spec
-INVARIANTS ImplConforms EmitReplay
+INVARIANTS ImplConforms SocketImportsKept EmitReplay
 CHECK_DEADLOCK FALSE
